@@ -161,6 +161,8 @@ prop("C04", [
     dict(engine="verus", unit="cache", fns=["CacheHandler::handle_query", "CacheHandler::get_entry", "CacheHandler::insert_cache_entry", "clone_with_ttl_decrement_out_reply", "clone_out_reply"]),
     dict(engine="verus", unit="outq", fns=["OutQuery::handle_query", "OutQuery::handle_query_internal", "TcpNameserver::handle_reply", "TcpNameserver::send_tcp_reply", "udp_decode"]),
     dict(engine="verus", unit="dnsparse", fns=["PktParser::get_dns", "PktParser::get_domain", "PktParser::get_domain_into", "PktParser::get_rr", "PktParser::get_rdata"]),
+    # encoder and decoder together on whole structured messages, body-independent (also judges a rewritten serialise_with_size)
+    dict(engine="sql", module="wire", checks=["wire/size-limit"], domain="14 structured messages of 1..400 records x limits 512, 513, 600, 1232, 4096, full-1, full, full+1, 65535 (138 cases)"),
 ], explanation="size-limited serialiser contract (length <= limit for every message the decoder can produce: names <= 255 octets); per-transport limit and TCP framing as emission-point preconditions; advertised size floor 512 in the decoder",
     assumptions=["push_compressed_domain (LinkedList dictionary, outside Verus) appends at least one and at most labels+1 octets: assumed contract, checked bounded by the Kani set dns_compress (exact output lengths asserted)",
                  "what the handler chain behind the listener returns is a decoded message or one of the client-facing errors (chain_ok, stub of DnsAclHandler::handle_query in unit dnsreply): "
@@ -206,6 +208,8 @@ prop("C14", [
                                                "EdnsParser::get_options", "EdnsParser::get_option", "EdnsParser::get_u16", "EdnsParser::get_u8", "EdnsData::set_opt", "Label::from_vec", "Domain::from_labels",
                                                "PktParser::get_question", "lemma_pointer_budget_covers_every_name", "lemma_enc_opts_prefix", "lem_be16_bytes"]),
     dict(engine="kani", sets=["dns_compress"]),
+    # bounded stand-in for the whole-message round trip (compression dictionary outside both verifiers)
+    dict(engine="sql", module="wire", checks=["wire/roundtrip-structured"], domain="20 structured messages: 1..1000 records of 8 kinds in three sections, names sharing suffixes at every depth, with/without EDNS options, > 16 KiB, exactly 65534 and 65535 octets"),
 ], explanation="(a) header/flag bits: encoder contract (octets 2,3 = flag1_of/flag2_of) and decoder contract (fields = bit tests on octets 2,3) compose to the identity (lemma, all messages); "
                "(b) what the decoder accepts the encoder can encode (pkt_wf) and the encoder's counts/size contract; (b') one record: after the owner name the encoder writes type, class, TTL, an RDLENGTH that counts the rdata it wrote and opaque rdata verbatim, "
                "and the decoder reads exactly those fields back (lemma_record_roundtrip over both contracts); (c) compression pointers: BOUNDED Kani on the real push_compressed_domain/push_prefix",
